@@ -274,7 +274,8 @@ def run_part_a_parallel(C, P, jobs, seqs, names, nsp, nw):
         for k in range(nw):
             of = os.path.join(d, f"out{k}.json")
             pr = subprocess.Popen([sys.executable, os.path.abspath(__file__), "--part-a-worker", uf, str(k), str(nw), of],
-                                  stdout=subprocess.DEVNULL, stderr=open(os.path.join(d, f"err{k}.txt"), "w"))
+                                  stdout=subprocess.DEVNULL, stderr=open(os.path.join(d, f"err{k}.txt"), "w"),
+                                  preexec_fn=native.die_with_parent)
             procs.append((pr, of, k))
         for pr, of, k in procs:
             pr.wait()
